@@ -190,6 +190,39 @@ Theorem C09_tree_find_first_node_id : forall (st : tstate) (z : Z),
 Proof. exact tree_find_first_node_id. Qed.
 Print Assumptions C09_tree_find_first_node_id.
 
+(* lookups by a data object o under default ids (no explicit data_id in the
+   tree, data_id = hash(data)) and a hash that separates the equality classes
+   present in the tree: the answer consists of the nodes whose data equals o *)
+Theorem C09_find_all_by_data_is_equality :
+  forall (f : forest) (s : start) (o_hash o_eqc : Z) (add_self : bool) (k : nat),
+  default_ids f -> hash_separates f o_hash o_eqc -> start_in f s ->
+  node_find_all (iterator f s) (Some (DInt o_hash)) None None add_self k
+  = Ok (py_limit k (filter (data_equals o_eqc) (branch f s add_self))).
+Proof. exact node_find_all_by_data_equality. Qed.
+Print Assumptions C09_find_all_by_data_is_equality.
+
+Theorem C09_tree_find_all_by_data_is_equality :
+  forall (st : tstate) (o_hash o_eqc : Z) (k : nat),
+  state_wf st -> default_ids (t_forest st) -> hash_separates (t_forest st) o_hash o_eqc ->
+  exists r, tree_find_all st (Some (DInt o_hash)) None None k = Ok r /\
+    NoDup r /\ incl r (map rid (filter (data_equals o_eqc) (pre_f (t_forest st)))) /\
+    (k = 0 -> Permutation r (map rid (filter (data_equals o_eqc) (pre_f (t_forest st))))) /\
+    (1 <= k -> length r = Nat.min k (length (filter (data_equals o_eqc) (pre_f (t_forest st))))).
+Proof. exact tree_find_all_by_data_equality. Qed.
+Print Assumptions C09_tree_find_all_by_data_is_equality.
+
+Example C09_data_equality_nonvacuous :
+  let i (o : Z) := I o o o true [o] (DInt o) None [] in
+  let f := [T 1 (i 5%Z) [T 2 (i 6%Z) []]; T 3 (i 5%Z) []] in
+  default_ids f /\ hash_separates f 5%Z 5%Z /\
+  res_map (map rid) (node_find_all (iterator f SRoot) (Some (DInt 5)) None None false 0) = Ok [1; 3].
+Proof.
+  cbv zeta. split; [|split].
+  - intros t Ht. cbn in Ht. repeat (destruct Ht as [<-|Ht]; [reflexivity|]). destruct Ht.
+  - intros t Ht. cbn in Ht. repeat (destruct Ht as [<-|Ht]; [cbn; split; intros E; (reflexivity || discriminate E)|]). destruct Ht.
+  - vm_compute. reflexivity.
+Qed.
+
 (* the well-formedness hypothesis is decidable; the correspondence evaluates
    [state_wf_b] on the registry and index observed from the implementation *)
 Theorem C09_state_wf_decided : forall st : tstate, state_wf_b st = true -> state_wf st.
